@@ -69,8 +69,22 @@ func prgSampling(args []string) int {
 		fmt.Fprintln(os.Stderr, err)
 		return 2
 	}
+	// a sampler that panics on valid arguments gives no result at all: reported as a finding of the phase, not fatal to the run
+	guard := func(phase string, f func() ([]prgx.Violation, int)) (v []prgx.Violation, ev int) {
+		defer func() {
+			if r := recover(); r != nil {
+				v = append(v, prgx.Violation{Property: "C15", Predicate: "SamplerPanics", Detail: fmt.Sprintf("%s: a sampler panicked on valid arguments: %v", phase, r)})
+			}
+		}()
+		return f()
+	}
 	res := make([]samplingOut, len(cases))
 	parallel(len(cases), func(i int) {
+		defer func() {
+			if r := recover(); r != nil {
+				res[i] = samplingOut{fmt.Sprintf("%s-%d-%d", cases[i].Kind, cases[i].N, cases[i].M), 0, []prgx.Violation{{Property: "C15", Predicate: "SamplerPanics", Detail: fmt.Sprintf("case %s n=%d m=%d: a sampler panicked on valid arguments: %v", cases[i].Kind, cases[i].N, cases[i].M, r)}}}
+			}
+		}()
 		r, ev := prgx.RunSampling(cases[i])
 		res[i] = samplingOut{r.ID, ev, r.Violations}
 		// the Go transcription used beyond the tables is itself validated against the TLC tables
@@ -96,7 +110,7 @@ func prgSampling(args []string) int {
 		if hi > *exhHi {
 			hi = *exhHi
 		}
-		v, ev := prgx.ExhaustiveUintN(lo, hi)
+		v, ev := guard(fmt.Sprintf("UintN on every one-attempt tape, n = %d..%d", lo, hi), func() ([]prgx.Violation, int) { return prgx.ExhaustiveUintN(lo, hi) })
 		mu.Lock()
 		ex[i] = samplingOut{fmt.Sprintf("exhaustive-uintn-%d-%d", lo, hi), ev, v}
 		mu.Unlock()
@@ -109,18 +123,18 @@ func prgSampling(args []string) int {
 	}
 	st := make([]samplingOut, len(structured))
 	parallel(len(structured), func(i int) {
-		v, ev := prgx.ExhaustiveUintN(structured[i], structured[i])
+		v, ev := guard(fmt.Sprintf("UintN on every one-attempt tape, n = %d", structured[i]), func() ([]prgx.Violation, int) { return prgx.ExhaustiveUintN(structured[i], structured[i]) })
 		st[i] = samplingOut{fmt.Sprintf("exhaustive-uintn-%d", structured[i]), ev, v}
 	})
 	res = append(res, st...)
-	v, ev := prgx.SampledLargeN(*seed, *per)
+	v, ev := guard("sampled large n", func() ([]prgx.Violation, int) { return prgx.SampledLargeN(*seed, *per) })
 	res = append(res, samplingOut{"sampled-large-n", ev, v})
-	v, ev = prgx.RejectionRuns(*seed)
+	v, ev = guard("rejection runs", func() ([]prgx.Violation, int) { return prgx.RejectionRuns(*seed) })
 	res = append(res, samplingOut{"rejection-runs", ev, v})
 	res = append(res, samplingOut{"arguments", 20, prgx.SamplingArgs(*seed)})
-	v, ev = prgx.UintNSequences(*seed, 10*(*per))
+	v, ev = guard("UintN sequences on one generator", func() ([]prgx.Violation, int) { return prgx.UintNSequences(*seed, 10*(*per)) })
 	res = append(res, samplingOut{"uintn-sequences", ev, v})
-	v, ev = prgx.SamplersOnTapes(*seed, 1+(*per)/10)
+	v, ev = guard("samplers on byte tapes", func() ([]prgx.Violation, int) { return prgx.SamplersOnTapes(*seed, 1+(*per)/10) })
 	res = append(res, samplingOut{"samplers-on-tapes", ev, v})
 	// validity of every sampler on a grid of (n, m), many seeded generators
 	v, ev = prgx.ValidityGrid(*seed, *per)
@@ -138,7 +152,7 @@ func prgSampling(args []string) int {
 	}
 	ej := make([]samplingOut, len(jobs))
 	parallel(len(jobs), func(i int) {
-		v, ev := prgx.RunExplore(jobs[i])
+		v, ev := guard(fmt.Sprintf("exact counting %v", jobs[i]), func() ([]prgx.Violation, int) { return prgx.RunExplore(jobs[i]) })
 		ej[i] = samplingOut{fmt.Sprintf("explore-%s-%d-%d-depth%d", jobs[i].Kind, jobs[i].N, jobs[i].M, jobs[i].Depth), ev, v}
 	})
 	res = append(res, ej...)
